@@ -30,6 +30,8 @@ def gen_case(rng, tier):
     prof["multiblock"] = rng.random() < 0.2  # functions with several blocks (cf.br / cf.cond_br)
     prof["streams"] = rng.random() < 0.25  # dart streaming regions on snax_xdma (DM for extension kernels) / snax_alu (compute)
     ast = B.BufGen(rng, prof).program()
+    if rng.random() < 0.1:
+        ast["core_query"] = True
     n = rng.choice([2, 2, 3, 3, 4, 5])
     envs = [B.gen_env(rng, n_cores=n) for _ in range(K_ENVS[tier])]
     envs[0]["stall"] = False
